@@ -456,7 +456,8 @@ func c05r3(p *Program, r *Report) {
 			t := info.TypeOf(arg)
 			// re-panic of the recovered value inside the deferred handler is the documented behaviour
 			if id, ok := ast.Unparen(arg).(*ast.Ident); ok {
-				if _, inLit := p.enclosingFuncNode(c).(*ast.FuncLit); inLit && isRecoverVar(info, fi, id) {
+				_, inLit := p.enclosingFuncNode(c).(*ast.FuncLit)
+				if (inLit || callsRecoverDirectly(fi)) && isRecoverVar(info, fi, id) {
 					r.OK(c, constructKey(fi, c), "re-panic of the recovered runtime error (deliberate)")
 					continue
 				}
@@ -503,7 +504,7 @@ func c05r4(p *Program, r *Report) {
 			if _, cut := decodeCuts[f.Name]; cut || f.Pkg != p.Root {
 				return true
 			}
-			return hasDeferredRecover(f.Pkg.TypesInfo, f) // panics below a recover are converted
+			return p.hasDeferredRecover(f.Pkg.TypesInfo, f) // panics below a recover are converted
 		}, nil)
 		var list []*FuncInfo
 		for f := range set {
